@@ -447,56 +447,90 @@ class AwareASTNode(DataClassSerializeMixin):
             last_index = i
             seen.add(c.id)
 
-    def _attach_inner(
-        self, operation: t.Literal["create", "attach", "replace"]
+    def _attach_plan(
+        self,
+        operation: t.Literal["create", "attach", "replace"],
+        pending: dict[str, AwareASTNode],
+        seen: dict[int, AwareASTNode],
+        order: list[AwareASTNode],
     ) -> tuple[AwareASTNode, AwareASTNode] | None:
-        """Assigns parent to all child nodes, checking that they don't have a
-        different parent that is also in the registry (aka attached node).
+        """Walks this detached node and all of its detached children, checking that every id is
+        free and that no child has a different parent that is also in the registry
+        (aka attached node). Collects the nodes to attach, children before parents, in `order`.
 
-        Then attaches this node and all of it's detached children to the AST registry.
+        Nothing is changed: attaching assigns parents and registers nodes all along the subtree,
+        so a collision found half way must not leave the subtree half attached.
+
+        Args:
+            pending: id -> node for the nodes that are going to be added to the registry
+            seen: id(child) -> the node it was found in, for all children visited so far
 
         Returns:
             tuple[ASTNode, ASTNode] | None: If there is a collision, returns the first
-            child node that collided and it's parent. None if the node was successfully attached
+            child node that collided and it's parent. None if the nodes in `order` can be attached
 
         Raises:
             ASTNodeRegistryCollisionError: If this node's id is already in the registry
         """
 
-        # Check this id is not already in the registry
-        if self.id in AwareASTNode._nodes:
+        # Check this id is not already in the registry (or about to be)
+        existing_node = AwareASTNode._nodes.get(self.id, pending.get(self.id))
+        if existing_node is not None:
             raise ASTNodeRegistryCollisionError(
                 new_node=self,
-                existing_node=AwareASTNode._nodes[self.id],
+                existing_node=existing_node,
                 operation=operation,
             )
+
+        pending[self.id] = self
 
         # Walk through children, who may be either:
         # * detached from registry entirely (result of a previsous `detach()` call)
         # * or attached roots, meaning they were just created and have no parent
         # If a child is attached to a different parent, it means an error has occured.
-        for c, f, i in self.get_child_nodes_with_field():
+        for c in self.get_child_nodes():
+            if id(c) in seen:
+                # The same child in two places: by now it would have its first parent
+                return (c, seen[id(c)])
+
+            seen[id(c)] = self
+
             if c.detached:
                 # Means an already existing but previously detached node was re-added as a child to this new node
                 # Thus we need to recursively attach it
-                if (ret := c._attach_inner(operation=operation)) is not None:
+                if (ret := c._attach_plan(operation, pending, seen, order)) is not None:
                     return ret
             elif not c.is_attached_root:
                 # This means that a child node is already attached to a different parent
                 assert c.parent is not None
                 return (c, c.parent)
 
-            c._set_parent(self, f, i)
-
-        # Now we can safely attach this node to the registry
-        AwareASTNode._nodes[self.id] = self
+        order.append(self)
 
         return None
 
     def _attach(self, operation: t.Literal["create", "attach", "replace"]) -> None:
-        if (ret := self._attach_inner(operation=operation)) is not None:
+        """Assigns parent to all child nodes and attaches this node and all of it's
+        detached children to the AST registry, or changes nothing if that is not possible.
+
+        Raises:
+            ASTNodeRegistryCollisionError: If this node's or any of the subtree node id's
+                are already in the registry
+            ASTNodeParentCollisionError: If any of the subtree nodes are already
+                attached to a different parent
+        """
+        order: list[AwareASTNode] = []
+
+        if (ret := self._attach_plan(operation, {}, {}, order)) is not None:
             c, p = ret
             raise ASTNodeParentCollisionError(self, c, p)
+
+        # Now we can safely attach the nodes to the registry, children first
+        for node in order:
+            for c, f, i in node.get_child_nodes_with_field():
+                c._set_parent(node, f, i)
+
+            AwareASTNode._nodes[node.id] = node
 
     def _replace_child(
         self, old: AwareASTNode, field: Field, index: int | None, new: AwareASTNode | None
